@@ -126,8 +126,32 @@ def run_proofs(prop, mod, tier, info, only=None):
     if jobs <= 1 or len(work) <= 1:
         results = [prove_one(w) for w in work]
     else:
-        with ProcessPoolExecutor(max_workers=min(jobs, len(work)), mp_context=mp.get_context('spawn')) as ex:
-            results = list(ex.map(prove_one, work, chunksize=1))
+        # the pool is given a deadline: a worker that never reports (seen once, on a heavily loaded machine) must end in an
+        # `undecided` verdict, not in a check that never returns
+        deadline = int(os.environ.get('VERIF_PROOF_DEADLINE_S', '0') or 0) or (2400 if tier != 'thorough' else 9000)
+        ex = ProcessPoolExecutor(max_workers=min(jobs, len(work)), mp_context=mp.get_context('spawn'))
+        futs = [ex.submit(prove_one, w) for w in work]
+        t_end = time.time() + deadline
+        results = []
+        late = []
+        for w, f in zip(work, futs):
+            try:
+                results.append(f.result(timeout=max(1.0, t_end - time.time())))
+            except Exception as e:  # noqa: BLE001  (TimeoutError, BrokenProcessPool, an exception inside the worker)
+                late.append((w[0], f'{type(e).__name__}: {e}'[:200]))
+        if late:
+            for pr in list(getattr(ex, '_processes', {}).values()):
+                try:
+                    pr.kill()
+                except Exception:  # noqa: BLE001
+                    pass
+            ex.shutdown(wait=False, cancel_futures=True)
+            for key, why in late:
+                results.append(({'function': key, 'source_sha256': None, 'subset': 'no-verdict', 'detail': why, 'paths': 0, 'obligations': 0, 'symex_s': 0},
+                                [Item(id=f'{prop}/{key}/no-verdict', kind='P', status='undecided', function=key,
+                                      note='the proof worker for this function did not report a verdict', detail=why)], []))
+        else:
+            ex.shutdown(wait=True)
     for finfo, its, assumptions in results:
         info['functions'].append(finfo)
         items.extend(its)
